@@ -11,7 +11,7 @@ import (
 
 func init() {
 	register("C04", propMeta{
-		Explanation: "E-CHAN + E-PAIR + E-LOCK on the broker's rendezvous channels (BrokerContext.proxyPolls, ProxyPoll.offerChannel, Snowflake.offerChannel, Snowflake.answerChannel). Unbounded waiting has a shape: a goroutine parked on a channel operation no remaining path of any other goroutine completes. O-0 enumerates every operation on the four classes with its mode (unconditional / polling / timed). O-1 reply obligation: the responder of an unconditionally awaited class (the per-poll goroutine for ProxyPoll.offerChannel) sends on or closes that channel on every terminating path. O-2 abandonable peer: an unconditional send on a class is allowed only if every receiver that can walk away (timed/polling) either completes the receive later on each abandoning path or revokes the sender (heap.Remove under snowflakeLock on the index != -1 edge); a class whose receiver can walk away without revocation (answerChannel) admits only polling or timed sends. O-2b claimed means committed: index becomes -1 only in the heap's Pop; from the non-nil edge of matchSnowflake every path of ClientOffers reaches the send of the offer. O-3 the timed waits use the protocol constants (10 s). O-4 deregistration on every exit: after a match every path of ClientOffers passes the map delete and one gauge Dec under snowflakeLock; in the timeout branch Remove, delete, Dec and close lie on the same edge set; AddSnowflake is the only Inc and the only insert. O-5 lock hygiene: every Lock released on all paths, no blocking channel operation or RequestOffer under snowflakeLock/Metrics.lock, lock order acyclic. A violated clause is a concrete CFG path on which some request waits for ever or a registration is left behind. Added after the second seeding round: O-6/C03 the heap-shape obligations of C03 (Less orientation, index maintained by Push/Pop/Swap, interface methods private to container/heap), since the claimed test index == -1 depends on them. Added after the third seeding round: the guarded-by rows of the matching state (both heaps, the id map) are evaluated here as well, through C02's obligations, so a length test or a pop outside snowflakeLock (a lock-free fast path) is reported by this property. Added after the fourth seeding round: O-1b (through C02) every poll gets a registration of its own - AddSnowflake never hands out an existing entry, which two waiter goroutines would share. Added after the fifth seeding round: O-1 every poll received by the matching loop is handed to a waiter goroutine (or answered) on every path of the iteration; O-5b no loop other than iteration over a collection runs with snowflakeLock or metrics.lock held (journal writer included); the timed waits may use time.NewTimer. Added after the sixth seeding round and the mutation audit: the broker's main starts the matching loop; O-4c every move of the AvailableProxies gauge is labelled with the registered proxy's own natType/proxyType; O-11/C19 zeroMetrics re-creates every per-period map (a nil map panics with metrics.lock held and every later request waits for ever). O-12/C20 lock pairing of the broker.",
+		Explanation: "E-CHAN + E-PAIR + E-LOCK on the broker's rendezvous channels (BrokerContext.proxyPolls, ProxyPoll.offerChannel, Snowflake.offerChannel, Snowflake.answerChannel). Unbounded waiting has a shape: a goroutine parked on a channel operation no remaining path of any other goroutine completes. O-0 enumerates every operation on the four classes with its mode (unconditional / polling / timed). O-1 reply obligation: the responder of an unconditionally awaited class (the per-poll goroutine for ProxyPoll.offerChannel) sends on or closes that channel on every terminating path. O-2 abandonable peer: an unconditional send on a class is allowed only if every receiver that can walk away (timed/polling) either completes the receive later on each abandoning path or revokes the sender (heap.Remove under snowflakeLock on the index != -1 edge); a class whose receiver can walk away without revocation (answerChannel) admits only polling or timed sends. O-2b claimed means committed: index becomes -1 only in the heap's Pop; from the non-nil edge of matchSnowflake every path of ClientOffers reaches the send of the offer. O-3 the timed waits use the protocol constants (10 s). O-4 deregistration on every exit: after a match every path of ClientOffers passes the map delete and one gauge Dec under snowflakeLock; in the timeout branch Remove, delete, Dec and close lie on the same edge set; AddSnowflake is the only Inc and the only insert. O-5 lock hygiene: every Lock released on all paths, no blocking channel operation or RequestOffer under snowflakeLock/Metrics.lock, lock order acyclic. A violated clause is a concrete CFG path on which some request waits for ever or a registration is left behind. Added after the second seeding round: O-6/C03 the heap-shape obligations of C03 (Less orientation, index maintained by Push/Pop/Swap, interface methods private to container/heap), since the claimed test index == -1 depends on them. Added after the third seeding round: the guarded-by rows of the matching state (both heaps, the id map) are evaluated here as well, through C02's obligations, so a length test or a pop outside snowflakeLock (a lock-free fast path) is reported by this property. Added after the fourth seeding round: O-1b (through C02) every poll gets a registration of its own - AddSnowflake never hands out an existing entry, which two waiter goroutines would share. Added after the fifth seeding round: O-1 every poll received by the matching loop is handed to a waiter goroutine (or answered) on every path of the iteration; O-5b no loop other than iteration over a collection runs with snowflakeLock or metrics.lock held (journal writer included); the timed waits may use time.NewTimer. Added after the sixth seeding round and the mutation audit: the broker's main starts the matching loop; O-4c every move of the AvailableProxies gauge is labelled with the registered proxy's own natType/proxyType; O-11/C19 zeroMetrics re-creates every per-period map (a nil map panics with metrics.lock held and every later request waits for ever). O-12/C20 lock pairing of the broker. Added after the seventh seeding round: the snowflake a timed-out waiter removes from its heap is the registration the waiter holds, never the result of a lookup in the id map (two overlapping polls under one session id).",
 		NotDecided:  "the numeric latency bound (scheduler, HTTP server, JSON time), starvation on snowflakeLock, a proxy re-using a session id while its earlier poll is pending, file I/O latency under Metrics.lock in printMetrics.",
 		Assumptions: []string{"Go channel semantics; time.After fires", "the repeated test of one SSA condition value takes the same outcome within one execution (path-sensitive search)", "lock identity is (type, field)"},
 	}, runC04)
